@@ -1,6 +1,7 @@
 package checks
 
 import (
+	"regexp"
 	"fmt"
 	"os"
 	"strings"
@@ -56,7 +57,16 @@ func c01GenCase(r *vc.Rand, idx int, kinds []string, prefix string) *atCase {
 		}
 		for k := 0; k < ns; k++ {
 			o := atStmtOpts{params: r.Intn(4) != 0, rowsClass: []string{"1", "1", "many", "0"}[r.Intn(4)]}
-			switch r.Intn(6) {
+			choice := r.Intn(6)
+			if r.Intn(10) == 0 {
+				// several statements in one text (multiStatements=true)
+				choice = 6 + r.Intn(2)
+			}
+			switch choice {
+			case 6:
+				grp.Stmts = append(grp.Stmts, atGenMulti(r, t, "update"))
+			case 7:
+				grp.Stmts = append(grp.Stmts, atGenMulti(r, t, "delete"))
 			case 0, 1:
 				grp.Stmts = append(grp.Stmts, atGenUpdate(r, t, o))
 			case 2:
@@ -197,6 +207,8 @@ func c01Crash(r *vc.Run, env *atEnv, c *atCase) {
 	r.Errorf("client child died during %s: %s", c.Name, clipStr(env.ch.LogTail(1500), 1500))
 }
 
+var reDigits = regexp.MustCompile(`[0-9]+`)
+
 func c01Judge(r *vc.Run, env *atEnv, c *atCase, o *atOutcome) {
 	shape := c.shape()
 	st := o.p2Statuses()
@@ -229,6 +241,32 @@ func c01Judge(r *vc.Run, env *atEnv, c *atCase, o *atOutcome) {
 	}
 	r.Count("branches_registered", int64(len(o.Branches)))
 	r.Count("branch_rollbacks_answered", int64(answered))
+	// which statement forms were accepted and which were refused (a form that is always refused is not being tested)
+	var flat []atStmt
+	for _, g := range c.Groups {
+		flat = append(flat, g.Stmts...)
+	}
+	k := 0
+	for _, s := range o.Res.Steps {
+		if s.Op != "exec" || s.Skipped {
+			continue
+		}
+		if k < len(flat) {
+			form := flat[k].Feat["stmt"]
+			if u := flat[k].Feat["upsert"]; u != "" {
+				form += "-" + u
+			}
+			if ic := flat[k].Feat["insert_cols"]; ic == "shuffled" {
+				form += "-shuffled-columns"
+			}
+			if s.Err != "" || s.Panic != "" {
+				r.Count("statement refused: "+form+": "+clipStr(reDigits.ReplaceAllString(s.Err+s.Panic, "N"), 60), 1)
+			} else {
+				r.Count("statement accepted: "+form, 1)
+			}
+		}
+		k++
+	}
 	viol := func(clause, detail string) {
 		r.Violate(&vc.Violation{Clause: clause, Shape: shape, Features: c.Feat, Detail: detail, Case: c,
 			History: map[string]interface{}{"steps": o.Res.Steps, "returned": o.Res.Returned, "err": o.Res.Err, "rollback_statuses": st, "events": o.history(200), "undo_rows_left": o.UndoPost, "client_log_errors": env.logErrors(30)}})
